@@ -149,8 +149,13 @@ def apply_mask(
         # The mask selects along the leading (batch) axes of the items.
         masks = np.reshape(masks, masks.shape + (1,) * (items.ndim - masks.ndim))
         return np.where(masks, items, replace_false_with)
-      else:
+      elif hasattr(items, '__array__'):
         return np.asarray(items)[masks]
+      else:
+        # A list / tuple column is filtered as it is (its rows can be ragged or
+        # of mixed types, np.asarray would fail on or coerce them).
+        result = [elem for elem, mask in zip(items, masks, strict=True) if mask]
+        return tuple(result) if isinstance(items, tuple) else result
     result = []
     for elem, mask in zip(items, masks, strict=True):
       if mask == True:  # pylint: disable=singleton-comparison
